@@ -76,6 +76,7 @@ type (
 		havingDefinition    HavingDefinition
 		orderByDefinition   OrderByDefinition
 		wg                  sync.WaitGroup
+		pending             bool // wg has been used: something may have to be awaited
 		singletonExecutions map[string]any
 		postProcessors      []func() error
 		dual                bool
@@ -423,15 +424,19 @@ func BuildFrom(query *Query, tableExpr *sqlparser.TableExpr) error {
 
 func BuildJoin(query *Query, joinExpr *sqlparser.JoinTableExpr) error {
 	left := CopyQuery(query)
+	inherited := len(left.postProcessors)
 	err := BuildFrom(left, &joinExpr.LeftExpr)
 	if err != nil {
 		return err
 	}
+	query.adopt(left, inherited)
 	right := CopyQuery(query)
+	inherited = len(right.postProcessors)
 	err = BuildFrom(right, &joinExpr.RightExpr)
 	if err != nil {
 		return err
 	}
+	query.adopt(right, inherited)
 	if joinExpr.Condition.On == nil {
 		expr := new(sqlparser.AndExpr)
 		expr.Left = sqlparser.BoolVal(true)
@@ -552,6 +557,7 @@ func BuildFromAliasedTable(query *Query, as string, expr sqlparser.SimpleTableEx
 				return err
 			}
 			query.postProcessors = append(query.postProcessors, subquery.postProcessors...)
+			query.pending = true
 			query.wg.Add(1)
 			go func() {
 				subquery.wg.Wait()
@@ -1322,6 +1328,7 @@ func SubqueryExpr(query *Query, current Map, expr *sqlparser.Subquery, opts ...E
 		return nil, err
 	}
 	query.postProcessors = append(query.postProcessors, subQuery.postProcessors...)
+	query.pending = true
 	query.wg.Add(1)
 	go func() {
 		subQuery.wg.Wait()
@@ -1382,6 +1389,7 @@ func ExistExpr(query *Query, current Map, expr *sqlparser.ExistsExpr, opts ...Ex
 		return false, INVALID_TYPE.Extend(fmt.Sprintf("failed to build `EXIST` expression. expected an array but found %T", array))
 	}
 	query.postProcessors = append(query.postProcessors, q.postProcessors...)
+	query.pending = true
 	query.wg.Add(1)
 	go func() {
 		q.wg.Wait()
@@ -1425,6 +1433,7 @@ func FunExpr(query *Query, current Map, expr *sqlparser.FuncExpr, opts ...ExprOp
 				return nil, e
 			}
 			var rs any
+			query.pending = true
 			query.wg.Add(1)
 			go func() {
 				var err error
@@ -1466,6 +1475,7 @@ func FunExpr(query *Query, current Map, expr *sqlparser.FuncExpr, opts ...ExprOp
 			if e != nil {
 				return nil, e
 			}
+			query.pending = true
 			query.wg.Add(1)
 			go func() {
 				_, err := function(query, current, nil, slice)
@@ -1815,11 +1825,13 @@ func (query *Query) exec() (result any, err error) {
 		case []any:
 			{
 				copy := CopyQuery(query)
+				inherited := len(copy.postProcessors)
 				copy.from = current
 				rs, err := copy.exec()
 				if err != nil {
 					return nil, err
 				}
+				query.adopt(copy, inherited)
 				slice = append(slice, rs)
 			}
 		case Map:
@@ -1942,6 +1954,21 @@ func Import(functions map[string]func([]any) (any, error)) {
 	for name, function := range functions {
 		RegisterExternalFunction(name, function)
 	}
+}
+
+// adopt takes over the work a copy of this query left pending: the post-processors
+// it registered beyond the ones it inherited, and its outstanding asynchronous calls
+func (query *Query) adopt(copy *Query, inherited int) {
+	query.postProcessors = append(query.postProcessors, copy.postProcessors[inherited:]...)
+	if !copy.pending {
+		return
+	}
+	query.pending = true
+	query.wg.Add(1)
+	go func() {
+		copy.wg.Wait()
+		query.wg.Done()
+	}()
 }
 
 func CopyQuery(query *Query) *Query {
